@@ -28,7 +28,7 @@ def run(ctx):
     keys = [(o["cs"]["ctx"], o["cs"]["op"], o["cs"]["l"]["val"], o["cs"]["r"]["val"], o["out"]["k"]) for o in obs]
     return D.finish(ctx, verdicts, by_id, evaluations=3 * len(obs),
                     rule="exhaustive: every (context, operator, left form, right form) with form = value class x source kind "
-                         "(24 expressible forms; a multi-item literal cannot be written); distinct = (context, operator, value classes, outcome kind)",
+                         "(28 expressible forms: true/false/empty/non-Boolean/multi-item/multi-item-of-Booleans x literal/element/computed/variable/function result; a multi-item literal cannot be written); distinct = (context, operator, value classes, outcome kind)",
                     nontrivial_keys=keys, samples=[{"src": o["src"], "out": o["out"]} for o in obs[:: max(1, len(obs) // 5)]],
                     exhaustive=True,
                     assumptions=["operand forms are evaluated on model resource MR1 with the five environment variables the harness supplies"])
